@@ -158,6 +158,7 @@ type Features struct {
 	HintMerges, MergeAdopted, MergeAdoptedOverGarbage int
 	C13Rot, C13Thr, C13SyncBatch                      int
 	Tears                                             int
+	Kills                                             int // restarts after a process death (unflushed tails inherited)
 	Backups                                           int
 	BackupRechecks                                    int
 	BackupReuse                                       int // backups taken into the directory of an earlier backup
@@ -198,6 +199,7 @@ type Runner struct {
 	NoDump        bool                            // skip the per-step dump (lock-step followers)
 	BeforeStep    []func(r *Runner, op *Op)
 	OnClosed      func(r *Runner) *Fail // called between Close and Open of a reopen (C13)
+	OnKilled      func(r *Runner)       // called between the death of the process and the restart of a kill op (C13)
 	OnMergeResult func(err error) *Fail // judge the return value of Merge (C06, C17)
 	LastMergeErr  error
 	kept          []*keptBackup
@@ -220,8 +222,15 @@ func NewRunner(property string, opt Opt, io *IOLog) (*Runner, *Fail) {
 	r.F.ReopenAfter = map[string]int{}
 	r.F.dirtySince = map[string]bool{}
 	r.Base = e.NewDir(strings.ToLower(property))
-	r.Dir = filepath.Join(r.Base, "db")
+	r.Dir = filepath.Join(r.Base, opt.DirName())
 	r.openJournal(property, opt)
+	opt.PrepareDir(r.Dir)
+	if opt.OddDir {
+		r.Stats.Label("directory-name-with-glob-metacharacters")
+	}
+	if opt.Sidecar {
+		r.Stats.Label("foreign-files-in-the-data-directory")
+	}
 	if f := r.open(opt); f != nil {
 		r.Cleanup()
 		return nil, f
@@ -695,6 +704,9 @@ func (r *Runner) exec(op *Op) (touched [][]byte, global bool, fail *Fail) {
 
 	case "tear":
 		return nil, true, r.execTear(op)
+
+	case "kill":
+		return nil, true, r.execKill(op)
 	}
 	return nil, false, failf("harness-bad-op", "unknown op kind %q", op.K)
 }
@@ -769,6 +781,7 @@ func (r *Runner) checkKeyList(what string, keys [][]byte, ordered bool) *Fail {
 	got := make([]string, len(keys))
 	for i, k := range keys {
 		got[i] = string(k)
+		ScribbleBehind(k) // a caller appending to a key it was handed must not reach the keys that follow
 	}
 	if ordered {
 		if !sort.StringsAreSorted(got) {
@@ -822,6 +835,7 @@ func (r *Runner) checkFold(stopAfter int, writes []RaceOp) *Fail {
 	err := r.DB.Fold(func(key, value []byte) bool {
 		n++
 		gotK = append(gotK, string(key))
+		ScribbleBehind(key)
 		wv, ok := snap[string(key)]
 		if !ok {
 			bad = failf("fold-unknown-key", "Fold visited key %q which the database did not hold when Fold was called", key)
@@ -1470,6 +1484,43 @@ func (r *Runner) execTear(op *Op) *Fail {
 	return nil
 }
 
+// execKill models the death of the process (not of the machine) between two calls, followed by a restart: nothing
+// is flushed any more, the next process finds every byte that was written (the page cache survives) and the flushed
+// lengths are what they were. Under standard I/O Close changes no byte of any file, so the handle is closed with the
+// hooks muted: the shadow keeps the unflushed tails, which is exactly that state. Every acknowledged mutation must
+// survive (C03), and what the new process promises about flushing (Sync(), rotation, Close) covers the inherited
+// bytes as well. Under MMap a process death leaves pre-extended files (recorded finding): a clean restart is done.
+func (r *Runner) execKill(op *Op) *Fail {
+	if r.Opt.IO == 1 || r.IO == nil {
+		r.Stats.Exclude("process-death-under-mmap-replaced-by-clean-restart", 1)
+		return r.execReopen(op)
+	}
+	var err error
+	r.IO.Muted(func() { err = r.DB.Close() })
+	r.closed = true
+	if err != nil {
+		return failf("close-error", "Close() = %v", err)
+	}
+	if r.OnKilled != nil {
+		r.OnKilled(r)
+	}
+	opt := r.Opt
+	if op.Opt != nil && op.Opt.IO == 0 {
+		opt = *op.Opt
+	}
+	if f := r.open(opt); f != nil {
+		f.Msg = "restart after the death of the process (every written byte present, unflushed tails still unflushed): " + f.Msg
+		return f
+	}
+	r.F.Reopens++
+	r.F.Kills++
+	for k := range r.F.dirtySince {
+		r.F.ReopenAfter[k]++
+	}
+	r.F.dirtySince = map[string]bool{}
+	return nil
+}
+
 // CloseOnly closes the database without reopening it.
 func (r *Runner) CloseOnly() (fail *Fail) {
 	defer func() {
@@ -1563,6 +1614,7 @@ func (r *Runner) AddLabels() {
 	lab(r.F.MergeAdoptedOverGarbage > 0, "merge-over-garbage-adopted")
 	lab(r.F.HintMerges > 0, "merge-with->=2-hint-entries")
 	lab(r.F.Tears > 0, "restart-over-an-incomplete-tail")
+	lab(r.F.Kills > 0, "restart-after-process-death-with-unflushed-tails")
 	lab(r.F.Backups > 0, "backup")
 	lab(r.F.BackupRechecks > 0, "backup-re-examined-after-later-source-activity")
 	lab(r.F.Backups > 1, "several-backups")
